@@ -50,6 +50,9 @@ struct PageSpec {
     rows: usize,
     state: Option<Vec<u8>>,
     faults: Vec<char>,
+    /// the result metadata of the statement changes right before this page is served (`:m`): with the
+    /// metadata-id extension negotiated the page then carries METADATA_CHANGED, a new id and new columns
+    meta_change: bool,
 }
 
 #[derive(Clone, Copy, Debug, PartialEq)]
@@ -66,6 +69,10 @@ struct Case {
     session: bool,
     /// `sessdg`: session pager, idempotent statement, DowngradingConsistencyRetryPolicy
     downgrading: bool,
+    /// mode 2|3: SCYLLA_USE_METADATA_ID negotiated (3: the node sends full metadata on every page, 2: only
+    /// when asked to or when the id presented is stale)
+    ext: bool,
+    always_full: bool,
     skip: bool,
     consumer: Consumer,
     pages: Vec<PageSpec>,
@@ -80,7 +87,7 @@ fn fmt_state(s: &Option<Vec<u8>>) -> String {
 
 fn fmt_page(p: &PageSpec) -> String {
     let f: String = if p.faults.is_empty() { "-".into() } else { p.faults.iter().collect() };
-    format!("{}:{}:{}", p.rows, fmt_state(&p.state), f)
+    format!("{}:{}:{}{}", p.rows, fmt_state(&p.state), f, if p.meta_change { ":m" } else { "" })
 }
 
 fn fmt_sess_case(skip: bool, consumer: Consumer, pages: &[PageSpec]) -> String {
@@ -89,6 +96,13 @@ fn fmt_sess_case(skip: bool, consumer: Consumer, pages: &[PageSpec]) -> String {
 
 fn fmt_dg_case(skip: bool, consumer: Consumer, pages: &[PageSpec]) -> String {
     fmt_case(skip, consumer, pages).replacen("pg ", "sessdg ", 1)
+}
+
+/// mode 2 / 3 (metadata-id extension) variant of a case line
+fn with_ext(line: String, always_full: bool) -> String {
+    let mut w: Vec<String> = line.split(' ').map(|x| x.to_owned()).collect();
+    w[1] = if always_full { "3".into() } else { "2".into() };
+    w.join(" ")
 }
 
 fn fmt_case(skip: bool, consumer: Consumer, pages: &[PageSpec]) -> String {
@@ -108,9 +122,11 @@ fn parse_case(line: &str) -> Option<Case> {
     }
     let session = w[0] != "pg";
     let downgrading = w[0] == "sessdg";
-    let skip = match w[1] {
-        "0" => false,
-        "1" => true,
+    let (skip, ext, always_full) = match w[1] {
+        "0" => (false, false, false),
+        "1" => (true, false, false),
+        "2" => (false, true, false),
+        "3" => (false, true, true),
         _ => return None,
     };
     let consumer = match w[2] {
@@ -123,18 +139,21 @@ fn parse_case(line: &str) -> Option<Case> {
     let mut pages = Vec::new();
     for pw in &w[3..] {
         let parts: Vec<&str> = pw.split(':').collect();
-        if parts.len() != 3 {
+        if parts.len() != 3 && !(parts.len() == 4 && parts[3] == "m") {
             return None;
         }
         let rows: usize = parts[0].parse().ok()?;
         let state = if parts[1] == "." { None } else { Some(unhex(parts[1])?) };
         let faults: Vec<char> = if parts[2] == "-" { vec![] } else { parts[2].chars().collect() };
-        pages.push(PageSpec { rows, state, faults });
+        pages.push(PageSpec { rows, state, faults, meta_change: parts.len() == 4 });
+    }
+    if !ext && pages.iter().any(|p| p.meta_change) {
+        return None; // a metadata change can only be announced with the extension negotiated
     }
     if downgrading && pages.iter().any(|p| p.faults.iter().any(|c| !"uWod".contains(*c))) {
         return None; // only these faults are modelled for the downgrading policy
     }
-    Some(Case { session, downgrading, skip, consumer, pages })
+    Some(Case { session, downgrading, ext, always_full, skip, consumer, pages })
 }
 
 // ---------------------------------------------------------------------------------------------
@@ -153,13 +172,37 @@ struct Script {
     sent: Vec<Vec<i32>>,
     /// (position when the EXECUTE arrived, paging state it carried)
     execs: Vec<(usize, Option<Vec<u8>>)>,
+    /// metadata-id extension: negotiated?; full metadata on every page?; current version of the
+    /// statement's result metadata; which pages' changes were applied; version each sent page was encoded with
+    ext: bool,
+    always_full: bool,
+    version: usize,
+    applied: Vec<bool>,
+    sent_versions: Vec<usize>,
     /// prepared id of THIS case's statement (every case prepares its own statement text, so a
     /// straggling request of an earlier case can never consume this case's script)
     statement_id: Vec<u8>,
 }
 
-fn cols() -> Vec<Col> {
-    vec![Col { name: "a".into(), type_id: 0x0009 }]
+/// Result metadata version `v`: even = `(a int)`, odd = `(a bigint, b int)`.
+fn cols(v: usize) -> Vec<Col> {
+    if v % 2 == 0 {
+        vec![Col { name: "a".into(), type_id: 0x0009 }]
+    } else {
+        vec![Col { name: "a".into(), type_id: 0x0002 }, Col { name: "b".into(), type_id: 0x0009 }]
+    }
+}
+
+fn metadata_id(v: usize) -> Vec<u8> {
+    vec![b'M', b'0' + (v % 10) as u8, (v / 10) as u8]
+}
+
+fn encode_row(v: usize, n: i32) -> Vec<Option<Vec<u8>>> {
+    if v % 2 == 0 {
+        vec![Some(n.to_be_bytes().to_vec())]
+    } else {
+        vec![Some((n as i64).to_be_bytes().to_vec()), Some((n + 7).to_be_bytes().to_vec())]
+    }
 }
 
 // --- the two control-connection queries of a Session (system.peers: no rows; system.local: this node) ---
@@ -190,10 +233,13 @@ fn write_meta_raw(b: &mut Vec<u8>, cols: &[(&str, &[u8])], table: &str, no_metad
     }
 }
 
-fn body_prepared_raw(id: &[u8], cols: &[(&str, &[u8])], table: &str) -> Vec<u8> {
+fn body_prepared_raw(id: &[u8], cols: &[(&str, &[u8])], table: &str, ext: bool) -> Vec<u8> {
     let mut b = Vec::new();
     w_int(&mut b, 4);
     w_short_bytes(&mut b, id);
+    if ext {
+        w_short_bytes(&mut b, b"ctl");
+    }
     w_int(&mut b, 0x0001); // prepared metadata: global table spec, no bind markers, no pk indexes
     w_int(&mut b, 0);
     w_int(&mut b, 0);
@@ -224,7 +270,7 @@ fn body_node_rows(local: bool, no_metadata: bool) -> Vec<u8> {
     b
 }
 
-fn handler(script: Arc<Mutex<Script>>, min_conn: Arc<AtomicUsize>) -> Handler {
+fn handler(script: Arc<Mutex<Script>>, min_conn: Arc<AtomicUsize>, ext: bool) -> Handler {
     let mut control: Vec<(Vec<u8>, bool)> = Vec::new(); // prepared id -> is system.local
     Box::new(move |req: &Request| match &req.parsed {
         // a straggler of an earlier case (its connection was abandoned after a drop / close / timeout)
@@ -238,17 +284,20 @@ fn handler(script: Arc<Mutex<Script>>, min_conn: Arc<AtomicUsize>) -> Handler {
             if !control.iter().any(|(i, _)| *i == id) {
                 control.push((id.clone(), local));
             }
-            vec![Action::Respond(RESP_RESULT, body_prepared_raw(&id, &node_cols(local), if local { "local" } else { "peers" }))]
+            vec![Action::Respond(RESP_RESULT, body_prepared_raw(&id, &node_cols(local), if local { "local" } else { "peers" }, ext))]
         }
         Parsed::Prepare { text } => {
-            let rm = ResultMeta { cols: Some(cols()), col_count: 1, ..Default::default() };
-            vec![Action::Respond(RESP_RESULT, body_prepared(&md5ish(text), None, &[], &[], &rm))]
+            let s = script.lock().unwrap();
+            let c = cols(s.version);
+            let rm = ResultMeta { col_count: c.len() as i32, cols: Some(c), ..Default::default() };
+            let mid = metadata_id(s.version);
+            vec![Action::Respond(RESP_RESULT, body_prepared(&md5ish(text), if ext { Some(&mid[..]) } else { None }, &[], &[], &rm))]
         }
         Parsed::Execute { id, params, .. } if control.iter().any(|(i, _)| i == id) => {
             let local = control.iter().find(|(i, _)| i == id).unwrap().1;
             vec![Action::Respond(RESP_RESULT, body_node_rows(local, params.skip_metadata))]
         }
-        Parsed::Execute { id, params, .. } => {
+        Parsed::Execute { id, result_metadata_id, params } => {
             let mut s = script.lock().unwrap();
             if *id != s.statement_id {
                 return vec![Action::Respond(RESP_ERROR, body_error(0x1001, "statement of another case", &[]))];
@@ -324,17 +373,29 @@ fn handler(script: Arc<Mutex<Script>>, min_conn: Arc<AtomicUsize>) -> Handler {
                 Some(p) => (p.rows, p.state.clone()),
                 None => (0, None),
             };
+            // the schema change scripted for this page happens now (once)
+            if s.pages.get(pos).is_some_and(|p| p.meta_change) && !s.applied.get(pos).copied().unwrap_or(true) {
+                s.applied[pos] = true;
+                s.version += 1;
+            }
+            let version = s.version;
             let first = s.next_row;
             let values: Vec<i32> = (first..first + n).map(|v| v as i32).collect();
-            let rows: Vec<Vec<Option<Vec<u8>>>> = values.iter().map(|v| vec![Some(v.to_be_bytes().to_vec())]).collect();
+            let rows: Vec<Vec<Option<Vec<u8>>>> = values.iter().map(|v| encode_row(version, *v)).collect();
             s.next_row += n;
             s.pos += 1;
             s.sent.push(values);
+            s.sent_versions.push(version);
+            // as a real node does: a stale (or empty) result-metadata id in the EXECUTE is answered with
+            // METADATA_CHANGED + the current id + full column specs, whatever skip_metadata says
+            let current = metadata_id(version);
+            let stale = s.ext && result_metadata_id.as_deref() != Some(&current[..]);
+            let c = cols(version);
             let rm = ResultMeta {
-                cols: if params.skip_metadata { None } else { Some(cols()) },
-                col_count: 1,
+                col_count: c.len() as i32,
+                cols: if stale || s.always_full || !params.skip_metadata { Some(c) } else { None },
                 paging_state: state,
-                new_metadata_id: None,
+                new_metadata_id: if stale { Some(current) } else { None },
             };
             actions.push(Action::Respond(RESP_RESULT, body_rows(&rm, &rows)));
             actions
@@ -361,8 +422,8 @@ struct Env {
 
 thread_local! {
     static RT: tokio::runtime::Runtime = tokio::runtime::Builder::new_current_thread().enable_all().build().unwrap();
-    static ENV: RefCell<Option<Env>> = const { RefCell::new(None) };
-    static SENV: RefCell<Option<Env>> = const { RefCell::new(None) };
+    /// one environment per (session?, metadata-id extension?)
+    static ENVS: RefCell<[Option<Env>; 4]> = const { RefCell::new([None, None, None, None]) };
     static CASE_NO: std::cell::Cell<u64> = const { std::cell::Cell::new(0) };
 }
 
@@ -407,16 +468,115 @@ fn error_label(e: &NextRowError) -> String {
 
 struct Observed {
     delivered: Vec<i32>,
+    /// column shape each delivered row was decoded with: 0 = (a int), 1 = (a bigint, b int = a+7), 255 = other
+    shapes: Vec<u8>,
     fin: String,
+}
+
+fn conv_int(r: (i32,)) -> (i32, u8) {
+    (r.0, 0)
+}
+
+fn conv_row(r: scylla::value::Row) -> (i32, u8) {
+    use scylla::value::CqlValue;
+    match r.columns.as_slice() {
+        [Some(CqlValue::Int(a))] => (*a, 0),
+        [Some(CqlValue::BigInt(a)), Some(CqlValue::Int(b))] if *b as i64 == *a + 7 => (*a as i32, 1),
+        [Some(CqlValue::BigInt(a)), _] => (*a as i32, 255),
+        [Some(CqlValue::Int(a)), ..] => (*a, 255),
+        _ => (-1, 255),
+    }
+}
+
+/// The consumer: `eager`, `slow`, `drop<k>`, `pdrop<k>` over any typed row stream.
+async fn consume<S, T>(mut stream: S, consumer: Consumer, conv: fn(T) -> (i32, u8), obs: &mut Observed)
+where
+    S: futures::Stream<Item = Result<T, NextRowError>> + Unpin,
+{
+    let limit = match consumer {
+        Consumer::Drop(k) | Consumer::PollDrop(k) => Some(k),
+        _ => None,
+    };
+    loop {
+        if let Some(k) = limit {
+            if obs.delivered.len() >= k {
+                if let Consumer::PollDrop(_) = consumer {
+                    // let the producer get ahead a little (how far is the scheduler's business), then
+                    // poll `next()` exactly once and drop it whatever it says
+                    for _ in 0..(k % 4) {
+                        tokio::task::yield_now().await;
+                    }
+                    let polled = {
+                        let mut fut = stream.next();
+                        futures::poll!(&mut fut)
+                    };
+                    match polled {
+                        std::task::Poll::Pending => {}
+                        std::task::Poll::Ready(Some(Ok(r))) => {
+                            let (v, sh) = conv(r);
+                            obs.delivered.push(v);
+                            obs.shapes.push(sh);
+                        }
+                        std::task::Poll::Ready(None) => {
+                            obs.fin = "end".to_owned();
+                            return;
+                        }
+                        std::task::Poll::Ready(Some(Err(e))) => {
+                            obs.fin = format!("err:{}", error_label(&e));
+                            match stream.next().await {
+                                None => obs.fin.push_str("+end"),
+                                Some(Ok(_)) => obs.fin.push_str("+row"),
+                                Some(Err(e2)) => obs.fin.push_str(&format!("+err:{}", error_label(&e2))),
+                            }
+                            return;
+                        }
+                    }
+                }
+                drop(stream);
+                obs.fin = "dropped".to_owned();
+                return;
+            }
+        }
+        match stream.next().await {
+            Some(Ok(r)) => {
+                let (v, sh) = conv(r);
+                obs.delivered.push(v);
+                obs.shapes.push(sh);
+                if consumer == Consumer::Slow {
+                    for _ in 0..3 {
+                        tokio::task::yield_now().await;
+                    }
+                    if obs.delivered.len() % 37 == 3 {
+                        tokio::time::sleep(Duration::from_millis(1)).await;
+                    }
+                }
+            }
+            Some(Err(e)) => {
+                obs.fin = format!("err:{}", error_label(&e));
+                // what does the stream say after the error?
+                match stream.next().await {
+                    None => obs.fin.push_str("+end"),
+                    Some(Ok(_)) => obs.fin.push_str("+row"),
+                    Some(Err(e2)) => obs.fin.push_str(&format!("+err:{}", error_label(&e2))),
+                }
+                return;
+            }
+            None => {
+                obs.fin = "end".to_owned();
+                return;
+            }
+        }
+    }
 }
 
 async fn run_case(case: &Case, ctx: &mut Ctx) -> String {
     // (re)build what is missing
-    let mut env = if case.session { SENV.with(|e| e.borrow_mut().take()) } else { ENV.with(|e| e.borrow_mut().take()) };
+    let slot = (case.session as usize) * 2 + case.ext as usize;
+    let mut env = ENVS.with(|e| e.borrow_mut()[slot].take());
     if env.is_none() {
         let script = Arc::new(Mutex::new(Script::default()));
         let min_conn = Arc::new(AtomicUsize::new(0));
-        let node = MockNode::start(false, None, handler(Arc::clone(&script), Arc::clone(&min_conn))).await;
+        let node = MockNode::start(case.ext, None, handler(Arc::clone(&script), Arc::clone(&min_conn), case.ext)).await;
         env = Some(Env { node, script, min_conn, conn: None });
     }
     let mut env = env.unwrap();
@@ -425,6 +585,9 @@ async fn run_case(case: &Case, ctx: &mut Ctx) -> String {
         *s = Script {
             pages: case.pages.clone(),
             faults: case.pages.iter().map(|p| p.faults.iter().copied().collect()).collect(),
+            ext: case.ext,
+            always_full: case.always_full,
+            applied: vec![false; case.pages.len()],
             ..Default::default()
         };
     }
@@ -492,8 +655,9 @@ async fn run_case(case: &Case, ctx: &mut Ctx) -> String {
 
     let script = Arc::clone(&env.script);
     let consumer = case.consumer;
+    let case_ext = case.ext;
     let body = async {
-        let mut obs = Observed { delivered: Vec::new(), fin: String::new() };
+        let mut obs = Observed { delivered: Vec::new(), shapes: Vec::new(), fin: String::new() };
         let pager = match conn {
             Client::Conn(c) => c.execute_iter_raw(prepared, SerializedValues::new()).await.map_err(|e| error_label(&e)),
             Client::Sess(s) => s.execute_iter(prepared, ()).await.map_err(|e| pager_error_label(&e)),
@@ -520,81 +684,19 @@ async fn run_case(case: &Case, ctx: &mut Ctx) -> String {
             };
             return obs;
         }
-        let mut stream = match pager.rows_stream::<(i32,)>() {
-            Ok(s) => s,
-            Err(_) => {
-                obs.fin = "ctor:TypeCheck".to_owned();
-                return obs;
+        if case_ext {
+            // the columns change from page to page: decode into untyped rows and check the shape per row
+            match pager.rows_stream::<scylla::value::Row>() {
+                Ok(stream) => consume(stream, consumer, conv_row, &mut obs).await,
+                Err(_) => obs.fin = "ctor:TypeCheck".to_owned(),
             }
-        };
-        let limit = match consumer {
-            Consumer::Drop(k) | Consumer::PollDrop(k) => Some(k),
-            _ => None,
-        };
-        loop {
-            if let Some(k) = limit {
-                if obs.delivered.len() >= k {
-                    if let Consumer::PollDrop(_) = consumer {
-                        // let the producer get ahead a little (how far is the scheduler's business), then
-                        // poll `next()` exactly once and drop it whatever it says
-                        for _ in 0..(k % 4) {
-                            tokio::task::yield_now().await;
-                        }
-                        let polled = {
-                            let mut fut = stream.next();
-                            futures::poll!(&mut fut)
-                        };
-                        match polled {
-                            std::task::Poll::Pending => {}
-                            std::task::Poll::Ready(Some(Ok((v,)))) => obs.delivered.push(v),
-                            std::task::Poll::Ready(None) => {
-                                obs.fin = "end".to_owned();
-                                return obs;
-                            }
-                            std::task::Poll::Ready(Some(Err(e))) => {
-                                obs.fin = format!("err:{}", error_label(&e));
-                                match stream.next().await {
-                                    None => obs.fin.push_str("+end"),
-                                    Some(Ok(_)) => obs.fin.push_str("+row"),
-                                    Some(Err(e2)) => obs.fin.push_str(&format!("+err:{}", error_label(&e2))),
-                                }
-                                return obs;
-                            }
-                        }
-                    }
-                    drop(stream);
-                    obs.fin = "dropped".to_owned();
-                    return obs;
-                }
-            }
-            match stream.next().await {
-                Some(Ok((v,))) => {
-                    obs.delivered.push(v);
-                    if consumer == Consumer::Slow {
-                        for _ in 0..3 {
-                            tokio::task::yield_now().await;
-                        }
-                        if obs.delivered.len() % 37 == 3 {
-                            tokio::time::sleep(Duration::from_millis(1)).await;
-                        }
-                    }
-                }
-                Some(Err(e)) => {
-                    obs.fin = format!("err:{}", error_label(&e));
-                    // what does the stream say after the error?
-                    match stream.next().await {
-                        None => obs.fin.push_str("+end"),
-                        Some(Ok(_)) => obs.fin.push_str("+row"),
-                        Some(Err(e2)) => obs.fin.push_str(&format!("+err:{}", error_label(&e2))),
-                    }
-                    return obs;
-                }
-                None => {
-                    obs.fin = "end".to_owned();
-                    return obs;
-                }
+        } else {
+            match pager.rows_stream::<(i32,)>() {
+                Ok(stream) => consume(stream, consumer, conv_int, &mut obs).await,
+                Err(_) => obs.fin = "ctor:TypeCheck".to_owned(),
             }
         }
+        obs
     };
     let obs = match tokio::time::timeout(Duration::from_secs(20), body).await {
         Ok(o) => o,
@@ -659,6 +761,19 @@ async fn run_case(case: &Case, ctx: &mut Ctx) -> String {
                     obs.fin
                 ));
             }
+        }
+    }
+    // 1b. every row is decoded with the columns in force for ITS page (metadata-id extension: the
+    //     columns change with the page that carries METADATA_CHANGED and stay changed afterwards)
+    {
+        let expected: Vec<u8> = s.sent.iter().zip(s.sent_versions.iter()).flat_map(|(rows, v)| std::iter::repeat_n((*v % 2) as u8, rows.len())).collect();
+        let m = obs.shapes.len().min(expected.len());
+        if obs.shapes[..m] != expected[..m] {
+            let i = (0..m).find(|i| obs.shapes[*i] != expected[*i]).unwrap();
+            ctx.fail(format!(
+                "row #{} was decoded with column shape {} but its page was sent with result metadata version {} (shape {})",
+                i, obs.shapes[i], expected[i], expected[i]
+            ));
         }
     }
     // 2. paging-state chain: an EXECUTE asking for page k carries the state returned with page k-1
@@ -805,12 +920,24 @@ async fn run_case(case: &Case, ctx: &mut Ctx) -> String {
     }
     let log: Vec<String> = s.execs.iter().map(|(_, st)| fmt_state(st)).collect();
     drop(s);
-    let out = format!(
+    let mut out = format!(
         "rows={} fin={} log={}",
         nat_list(&obs.delivered),
         obs.fin,
         if log.is_empty() { "-".to_owned() } else { log.join(",") }
     );
+    if case.ext {
+        // run-length encoding of the column shape of every delivered row
+        let mut rle: Vec<(u8, usize)> = Vec::new();
+        for sh in &obs.shapes {
+            match rle.last_mut() {
+                Some((v, n)) if v == sh => *n += 1,
+                _ => rle.push((*sh, 1)),
+            }
+        }
+        let body = if rle.is_empty() { "-".to_owned() } else { rle.iter().map(|(v, n)| format!("{}x{}", v, n)).collect::<Vec<_>>().join(",") };
+        out.push_str(&format!(" ver={}", body));
+    }
     if dirty {
         env.conn = None;
     }
@@ -819,9 +946,9 @@ async fn run_case(case: &Case, ctx: &mut Ctx) -> String {
             // the pool has lost its connection: start a fresh cluster next time
             return out;
         }
-        SENV.with(|e| *e.borrow_mut() = Some(env));
+        ENVS.with(|e| e.borrow_mut()[slot] = Some(env));
     } else {
-        ENV.with(|e| *e.borrow_mut() = Some(env));
+        ENVS.with(|e| e.borrow_mut()[slot] = Some(env));
     }
     out
 }
@@ -878,6 +1005,7 @@ fn build(sizes: &[usize], sts: &[Vec<u8>], faults: &[Vec<char>]) -> Vec<PageSpec
             rows: sizes[i],
             state: if i + 1 == n { None } else { Some(sts[i].clone()) },
             faults: faults.get(i).cloned().unwrap_or_default(),
+            meta_change: false,
         })
         .collect()
 }
@@ -907,6 +1035,94 @@ pub fn generate(rng: &mut Rng, tier: Tier, emit: &mut dyn FnMut(String)) {
     gen_family(rng, tier == Tier::Thorough, false, emit);
     gen_family(rng, tier == Tier::Thorough, true, emit);
     gen_downgrading(rng, tier == Tier::Thorough, emit);
+    gen_metadata_changes(rng, tier == Tier::Thorough, emit);
+}
+
+/// SCYLLA_USE_METADATA_ID negotiated; the statement's result metadata changes before page j (the page
+/// then carries METADATA_CHANGED + new id + new column specs): first, middle (with a paging state), last
+/// page; one or several changes; the other pages with NO_METADATA (mode 2) or full metadata (mode 3);
+/// all three pager families, every consumer, faults around the change.
+fn gen_metadata_changes(rng: &mut Rng, thorough: bool, emit: &mut dyn FnMut(String)) {
+    let kinds: [fn(bool, Consumer, &[PageSpec]) -> String; 3] = [fmt_case, fmt_sess_case, fmt_dg_case];
+    let (len, size, rows) = if thorough { (5, 2, 6) } else { (4, 2, 5) };
+    let mut tick = 0usize;
+    for sizes in compositions(len, size, rows) {
+        let n = sizes.len();
+        let total: usize = sizes.iter().sum();
+        for j in 0..n {
+            tick += 1;
+            let sts = states(rng, n, false);
+            let kind = kinds[tick % 3];
+            // one change at page j
+            let mut pages = build(&sizes, &sts, &[]);
+            pages[j].meta_change = true;
+            emit(with_ext(kind(false, Consumer::Eager, &pages), tick % 2 == 0));
+            // a second change later (or at the last page); a slow consumer
+            let mut pages2 = pages.clone();
+            pages2[n - 1].meta_change = true;
+            if j + 2 < n {
+                pages2[j + 2].meta_change = true;
+            }
+            emit(with_ext(kinds[(tick + 1) % 3](false, Consumer::Slow, &pages2), tick % 2 == 1));
+            // the change on a page whose request is re-sent (re-prepare / retried read timeout) or fails
+            let mut pages3 = pages.clone();
+            let f: &str = match (tick % 3, tick % 4) {
+                (2, 0) => "uW",
+                (2, _) => "u",
+                (1, 1) => "R",
+                (_, 2) => "uu",
+                (_, 3) => "o",
+                _ => "u",
+            };
+            pages3[j].faults = f.chars().collect();
+            emit(with_ext(kind(false, Consumer::Eager, &pages3), tick % 2 == 0));
+            // drops around the change
+            let k = (tick + j) % (total + 1);
+            emit(with_ext(kind(false, if tick % 2 == 0 { Consumer::Drop(k) } else { Consumer::PollDrop(k) }, &pages2), tick % 4 < 2));
+        }
+        // no change at all with the extension on (every page NO_METADATA / full metadata)
+        tick += 1;
+        let sts = states(rng, n, false);
+        emit(with_ext(kinds[tick % 3](false, Consumer::Eager, &build(&sizes, &sts, &[])), tick % 2 == 0));
+    }
+    for _ in 0..(if thorough { 30_000 } else { 3_000 }) {
+        let n = 1 + rng.below(14) as usize;
+        let sizes: Vec<usize> = (0..n).map(|_| if rng.chance(1, 5) { 0 } else { 1 + rng.below(25) as usize }).collect();
+        let total: usize = sizes.iter().sum();
+        let repeat = rng.below(10) == 0;
+        let sts = states(rng, n, repeat);
+        let k = rng.below(3) as usize;
+        let kind = kinds[k];
+        let mut faults = vec![vec![]; n];
+        for f in faults.iter_mut() {
+            match rng.below(10) {
+                0 => *f = vec!['u'],
+                1 => *f = vec!['d'],
+                2 if k == 1 => *f = vec!['R'],
+                _ => {}
+            }
+        }
+        if rng.chance(1, 4) {
+            let j = rng.below(n as u64) as usize;
+            faults[j].push(if k == 2 && rng.bool() { 'W' } else { 'o' });
+        }
+        let mut pages = build(&sizes, &sts, &faults);
+        for p in pages.iter_mut() {
+            if rng.chance(1, 4) {
+                p.meta_change = true;
+            }
+        }
+        if rng.chance(1, 10) {
+            reshape(rng, &mut pages, &sts);
+        }
+        let consumer = match rng.below(8) {
+            0 | 1 => Consumer::Slow,
+            2 => Consumer::Drop(rng.below(total as u64 + 2) as usize),
+            3 => Consumer::PollDrop(rng.below(total as u64 + 2) as usize),
+            _ => Consumer::Eager,
+        };
+        emit(with_ext(kind(false, consumer, &pages), rng.bool()));
+    }
 }
 
 /// Script shapes beyond "last page has no paging state": a page WITHOUT paging state in the middle (the
